@@ -576,9 +576,11 @@ V_C16(S, e, T, aux) ==
      /\ e.tx.a.vamm \in Vs(S) /\ e.tx.s \in Traders
   THEN LET v == e.tx.a.vamm
            p == PosOf(S, v, e.tx.s)
-           \* "already updated in that block": the owner's own last successful trade on the position
-           \* (ghost, from the history) -- not the stored stamp the implementation consults
-           restricted == aux.liqblk[v] = S.blk.h /\ p.exists /\ aux.upd[v][e.tx.s] = S.blk.h
+           \* "already updated in that block": the last successful update of the trader's position on
+           \* this vAMM -- an open / close of their own (also one that removed the position) or a
+           \* liquidation of it -- taken from the history (ghost), not the stored stamp the
+           \* implementation consults
+           restricted == aux.liqblk[v] = S.blk.h /\ aux.upd[v][e.tx.s] = S.blk.h
        IN IF restricted THEN Tag(~e.res.ok /\ Unchanged(e), "C16.must_fail")
           ELSE Tag(e.res.err # "restriction", "C16.no_restrict")
   ELSE {}
@@ -587,8 +589,9 @@ A_C16(S, e, T, aux) ==
      /\ e.tx.a.vamm \in Vs(S) /\ e.tx.s \in Traders
   THEN LET v == e.tx.a.vamm
            p == PosOf(S, v, e.tx.s)
-       IN (IF aux.liqblk[v] = S.blk.h /\ p.exists /\ aux.upd[v][e.tx.s] = S.blk.h THEN {"restricted"} ELSE {})
-          \cup (IF aux.liqblk[v] = S.blk.h /\ ~(p.exists /\ aux.upd[v][e.tx.s] = S.blk.h) THEN {"bystander_same_block"} ELSE {})
+       IN (IF aux.liqblk[v] = S.blk.h /\ aux.upd[v][e.tx.s] = S.blk.h THEN {"restricted"} ELSE {})
+          \cup (IF aux.liqblk[v] = S.blk.h /\ aux.upd[v][e.tx.s] = S.blk.h /\ ~p.exists THEN {"restricted_without_position"} ELSE {})
+          \cup (IF aux.liqblk[v] = S.blk.h /\ ~(aux.upd[v][e.tx.s] = S.blk.h) THEN {"bystander_same_block"} ELSE {})
           \cup (IF aux.liqblk[v] = S.blk.h /\ p.exists /\ aux.upd[v][e.tx.s] = S.blk.h /\ Abs(PosOf(T, v, e.tx.s).size) < Abs(p.size) THEN {"reduced_then_restricted"} ELSE {})
           \cup (IF aux.liqblk[v] # 0 /\ aux.liqblk[v] < S.blk.h THEN {"later_block"} ELSE {})
   ELSE IF EngOp(e, "liquidate") /\ e.res.ok THEN {"liquidation"} ELSE {}
@@ -748,6 +751,17 @@ AuxInit(W) ==
                  LET rs == W.feed.rounds[k] IN SelectSeq(rs, LAMBDA r : r.id >= 1)],
    chk    |-> [v \in Vs(W) |-> [t \in Traders |-> W.eng.pos[v][t].lupf]]]
 
+\* block of the last successful update of each trader's position on each vAMM: an open / close of
+\* their own (also one that removes the position) or a liquidation naming them
+UpdNext(upd, S, e, T) ==
+  [v \in Vs(T) |-> [t \in Traders |->
+     IF e.kind = "tx" /\ e.tx.c = "engine" /\ e.res.ok /\ e.tx.s = t
+        /\ e.tx.m \in {"open_position", "close_position"} /\ e.tx.a.vamm = v
+     THEN S.blk.h
+     ELSE IF EngOp(e, "liquidate") /\ e.res.ok /\ e.tx.a.vamm = v /\ e.tx.a.trader = t
+     THEN S.blk.h
+     ELSE upd[v][t]]]
+
 AuxNext(aux, S, e, T) ==
   [y0     |-> aux.y0,
    seen   |-> [v \in Vs(T) |->
@@ -762,13 +776,7 @@ AuxNext(aux, S, e, T) ==
    lastq  |-> IF e.kind = "query" /\ IsVammName(e.tx.c) /\ e.tx.m \in {"input_amount", "output_amount"} /\ e.res.ok
               THEN [ok |-> TRUE, c |-> e.tx.c, q |-> e.tx.m, dir |-> e.tx.a.dir, amount |-> e.tx.a.amount, val |-> e.res.val]
               ELSE [ok |-> FALSE, c |-> "", q |-> "", dir |-> "", amount |-> 0, val |-> 0],
-   upd    |-> [v \in Vs(T) |-> [t \in Traders |->
-                 IF e.kind = "tx" /\ e.tx.c = "engine" /\ e.res.ok /\ e.tx.s = t
-                    /\ e.tx.m \in {"open_position", "close_position"} /\ e.tx.a.vamm = v
-                 THEN (IF T.eng.pos[v][t].exists THEN S.blk.h ELSE 0)
-                 ELSE IF EngOp(e, "liquidate") /\ e.res.ok /\ e.tx.a.vamm = v /\ e.tx.a.trader = t /\ ~T.eng.pos[v][t].exists
-                 THEN 0
-                 ELSE aux.upd[v][t]]],
+   upd    |-> UpdNext(aux.upd, S, e, T),
    chk    |-> [v \in Vs(T) |-> [t \in Traders |->
                  IF e.kind = "tx" /\ e.tx.c = "engine" /\ e.res.ok /\ e.tx.s = t
                     /\ e.tx.m \in {"open_position", "close_position", "withdraw_margin"} /\ e.tx.a.vamm = v
